@@ -17,7 +17,7 @@
    `same s a b`       : a and b have the same union-find root in s.          *)
 From Coq Require Import ZArith List Bool Relations.
 From CSS Require Import Equiv.Model Equiv.Ref Equiv.UF Equiv.Inv Equiv.Hist Equiv.Path Equiv.Cov
-  Equiv.Complete.
+  Equiv.Complete Equiv.Total.
 From CSS Require Gen.EquivHeaviest.
 From CSS Require Import Equiv.GenBridge.
 Import ListNotations.
@@ -672,6 +672,210 @@ Proof.
   - revert Hk. eapply a6_not_same; vm_compute; reflexivity.
 Qed.
 
+(* =====================================================================================
+   TOTALITY.  Every theorem above is conditional on `exec ... = Some ...` (and on
+   `equivalent / is_verified / find_path / connect_cycles ... = Some ...`): the model's loops
+   run on explicit fuel and `self.parents[root]` is an `option`.  The theorems below discharge
+   these hypotheses: on every history over a fresh database the model NEVER returns `None`,
+   i.e. the fuel the model passes to `climb` (length of the parent table), to the DFS of
+   connect_cycles (1 + number of keys + number of entries of the re-keyed one-way table) and
+   to the BFS of find_path (2 + number of recorded edges) is sufficient, and no internal
+   parent lookup misses (Equiv/Total.v: the parent table is closed and parent chains are
+   well founded in every reachable state).  The KeyError find_path RAISES on non-equivalent
+   labels is the explicit result `PathKeyError`; `None` means only "fuel exhausted / internal
+   KeyError" and is unreachable.
+
+   Extra hypothesis `order_len`: iterating over a set yields each element ONCE (the
+   iteration order is not longer than the set).  It is necessary: `C06_total_needs_order_len`
+   exhibits an `order` satisfying `order_In` (every element three times) on which find_path
+   runs out of fuel.  The runnable instance `isort` satisfies it (`isort_len`). *)
+Section C06_total.
+Variable order : list Z -> list Z.
+Hypothesis order_In : forall l x, In x (order l) <-> In x l.
+Hypothesis order_len : forall l, (length (order l) <= length l)%nat.
+
+Theorem C06_exec_total : forall ops, exec order init ops <> None.
+Proof.
+  intros ops. destruct (exec_total order order_len ops init wf_init) as (s & rs & -> & _).
+  discriminate.
+Qed.
+
+Theorem C06_exec_total_ex : forall ops, exists s rs, exec order init ops = Some (s, rs).
+Proof.
+  intros ops. destruct (exec_total order order_len ops init wf_init) as (s & rs & E & _). eauto.
+Qed.
+
+(* every single operation answers on every reachable state (so a history can always be
+   continued: `exec` of a prefix is `Some`, and so is the next step) *)
+Theorem C06_step_total : forall ops s rs o,
+  exec order init ops = Some (s, rs) -> exists s' r, step order s o = Some (s', r).
+Proof.
+  intros ops s rs o E.
+  destruct (step_total order order_len s o (exec_wf order order_len _ _ _ _ wf_init E))
+    as (s' & r & St & _). eauto.
+Qed.
+
+(* db[x]: the path-compression loop terminates within `length parents` iterations and never
+   looks up a missing parent: the parent relation of a reachable state is acyclic and closed *)
+Theorem C06_find_total : forall ops s rs a,
+  exec order init ops = Some (s, rs) ->
+  exists s' r, find s a = Some (s', r) /\ root s a r.
+Proof.
+  intros ops s rs a E.
+  destruct (find_total s a (exec_wf order order_len _ _ _ _ wf_init E)) as (s' & r & F & _).
+  exists s', r. split; auto. exact (proj1 (find_spec _ _ _ _ F)).
+Qed.
+
+(* the loop itself: `climb` with ANY fuel >= the depth of the label answers *)
+Theorem C06_find_fuel_sufficient : forall ops s rs a,
+  exec order init ops = Some (s, rs) ->
+  closedp (parents s) /\
+  forall r, root s a r -> exists n, chainN (parf (parents s)) a r n /\ (n <= length (parents s))%nat.
+Proof.
+  intros ops s rs a E. destruct (exec_wf order order_len _ _ _ _ wf_init E) as (C & _).
+  split; auto. intros r R. apply root_parf in R. destruct (chain_chainN _ _ _ R) as (n & RN).
+  exists n. split; auto. eapply chainN_bound; eauto.
+Qed.
+
+(* connect_cycles: the fuel S (length ow + nedges ow) suffices (every stack entry is popped
+   once; entries are pushed only while expanding a not yet visited key, one per element) *)
+Theorem C06_connect_cycles_total : forall ops s rs,
+  exec order init ops = Some (s, rs) -> exists s', connect_cycles order s = Some s'.
+Proof.
+  intros ops s rs E.
+  destruct (connect_cycles_total order order_len s (exec_wf order order_len _ _ _ _ wf_init E))
+    as (s' & CC & _). eauto.
+Qed.
+
+(* the loop itself, for any well-formed state, stack and visited set *)
+Theorem C06_connect_cycles_fuel_sufficient : forall fuel s stack visited,
+  wf s -> (length stack + pot (oneway s) visited <= fuel)%nat ->
+  exists s', cc_loop order fuel s stack visited = Some s'.
+Proof.
+  intros fuel s stack visited W H.
+  destruct (cc_loop_total order order_len fuel s stack visited W H) as (s' & E & _). eauto.
+Qed.
+
+(* find_path: always answers; KeyError exactly on non-equivalent labels; on equivalent labels
+   the BFS finds, within its fuel, a path of recorded edges from the first to the second *)
+Theorem C06_find_path_total : forall ops s rs a b,
+  exec order init ops = Some (s, rs) ->
+  exists s' r, find_path order s a b = Some (s', r) /\
+    (~ same s a b -> r = PathKeyError) /\
+    (same s a b -> exists p, r = PathOk p /\
+        hd_error p = Some a /\ last p 0 = b /\ epath (recorded ops) p).
+Proof.
+  intros ops s rs a b E.
+  destruct (find_path_total order order_len s a b (exec_wf order order_len _ _ _ _ wf_init E))
+    as (s' & r & F & _).
+  exists s', r. split; auto.
+  destruct (C06_path order order_In ops s rs a b s' r E F) as (K & P).
+  split; [apply K|]. intros S. destruct r as [|p]; [destruct (proj1 K eq_refl S)|].
+  exists p. split; auto.
+Qed.
+
+(* the BFS loop itself, in any state *)
+Theorem C06_find_path_fuel_sufficient : forall fuel s b deque visited cur,
+  (length deque + pot (vertices s) visited <= fuel)%nat ->
+  exists s' p, fp_loop order fuel s b deque visited cur = Some (s', p).
+Proof. exact (fp_loop_total order order_len). Qed.
+
+(* ---- the main theorems without `= Some` hypotheses *)
+Theorem C06_sound_total : forall ops a b,
+  exists s rs s' e, exec order init ops = Some (s, rs) /\ equivalent s a b = Some (s', e) /\
+    (e = true ->
+     clos_refl_trans Z (recorded ops) a b /\ clos_refl_trans Z (recorded ops) b a).
+Proof.
+  intros ops a b. destruct (C06_exec_total_ex ops) as (s & rs & E).
+  destruct (equivalent_total s a b (exec_wf order order_len _ _ _ _ wf_init E))
+    as (s' & e & Q & _).
+  exists s, rs, s', e. split; auto. split; auto. intros ->.
+  exact (C06_sound order order_In ops s rs a b s' E Q).
+Qed.
+
+Theorem C06_classes_are_sccs_total : forall ops a b,
+  exists s rs s' e, exec order init (ops ++ [Connect]) = Some (s, rs) /\
+    equivalent s a b = Some (s', e) /\
+    (e = true <->
+     clos_refl_trans Z (recorded (ops ++ [Connect])) a b /\
+     clos_refl_trans Z (recorded (ops ++ [Connect])) b a).
+Proof.
+  intros ops a b. destruct (C06_exec_total_ex (ops ++ [Connect])) as (s & rs & E).
+  destruct (equivalent_total s a b (exec_wf order order_len _ _ _ _ wf_init E))
+    as (s' & e & Q & _).
+  exists s, rs, s', e. split; auto. split; auto.
+  exact (C06_classes_are_sccs order order_In ops s rs a b s' e E Q).
+Qed.
+
+Theorem C06_classes_are_sccs_after_queries_total : forall ops qs a b,
+  Forall is_query qs ->
+  exists s rs s' e, exec order init (ops ++ Connect :: qs) = Some (s, rs) /\
+    equivalent s a b = Some (s', e) /\
+    (e = true <->
+     clos_refl_trans Z (recorded (ops ++ Connect :: qs)) a b /\
+     clos_refl_trans Z (recorded (ops ++ Connect :: qs)) b a).
+Proof.
+  intros ops qs a b F. destruct (C06_exec_total_ex (ops ++ Connect :: qs)) as (s & rs & E).
+  destruct (equivalent_total s a b (exec_wf order order_len _ _ _ _ wf_init E))
+    as (s' & e & Q & _).
+  exists s, rs, s', e. split; auto. split; auto.
+  exact (C06_classes_are_sccs_after_queries order order_In ops qs s rs a b s' e F E Q).
+Qed.
+
+Theorem C06_verified_total : forall ops a,
+  exists s rs s' v, exec order init ops = Some (s, rs) /\ is_verified s a = Some (s', v) /\
+    (v = true <-> exists b, marked ops b /\ same s a b).
+Proof.
+  intros ops a. destruct (C06_exec_total_ex ops) as (s & rs & E).
+  destruct (is_verified_total s a (exec_wf order order_len _ _ _ _ wf_init E))
+    as (s' & v & Q & _).
+  exists s, rs, s', v. split; auto. split; auto.
+  exact (C06_verified order order_In ops s rs a s' v E Q).
+Qed.
+
+Theorem C06_path_total : forall ops a b,
+  exists s rs s' r, exec order init ops = Some (s, rs) /\
+    find_path order s a b = Some (s', r) /\
+    (r = PathKeyError <-> ~ same s a b) /\
+    (forall p, r = PathOk p ->
+       hd_error p = Some a /\ last p 0 = b /\ epath (recorded ops) p).
+Proof.
+  intros ops a b. destruct (C06_exec_total_ex ops) as (s & rs & E).
+  destruct (find_path_total order order_len s a b (exec_wf order order_len _ _ _ _ wf_init E))
+    as (s' & r & Q & _).
+  exists s, rs, s', r. split; auto. split; auto.
+  exact (C06_path order order_In ops s rs a b s' r E Q).
+Qed.
+
+End C06_total.
+
+Theorem C06_total_needs_order_len :
+  (forall l x, In x (order3 l) <-> In x l) /\
+  exec order3 init [TwoWay 1 2; TwoWay 1 3; TwoWay 1 4; TwoWay 2 5; TwoWay 3 5; TwoWay 4 5;
+                    TwoWay 5 6; QPath 1 6] = None.
+Proof. exact total_needs_order_len. Qed.
+
+(* the total theorems instantiated at the runnable order (no hypothesis left) *)
+Example C06_exec_total_isort : forall ops, exec isort init ops <> None.
+Proof. exact (C06_exec_total isort isort_len). Qed.
+
+Example C06_classes_are_sccs_total_isort : forall ops a b,
+  exists s rs s' e, exec isort init (ops ++ [Connect]) = Some (s, rs) /\
+    equivalent s a b = Some (s', e) /\
+    (e = true <->
+     clos_refl_trans Z (recorded (ops ++ [Connect])) a b /\
+     clos_refl_trans Z (recorded (ops ++ [Connect])) b a).
+Proof. exact (C06_classes_are_sccs_total isort isort_In isort_len). Qed.
+
+(* a label at depth 2 below its root (1 -> 2 -> 4): the loop of __getitem__ really iterates *)
+Example C06_find_fuel_nonvacuous :
+  exists s rs, exec isort init [TwoWay 1 2; TwoWay 3 4; TwoWay 1 3] = Some (s, rs) /\
+    parents s = [(1, 2); (2, 4); (3, 4); (4, 4)] /\ chainN (parf (parents s)) 1 4 2.
+Proof.
+  eexists _, _. split; [vm_compute; reflexivity|]. split; [reflexivity|].
+  apply cn_step; [discriminate|]. apply cn_step; [discriminate|]. apply cn_root. reflexivity.
+Qed.
+
 (* ================= the union-by-weight choice is the source's (translator) =================
    The root that survives a union is the source's expression
    `max(((self.weights[r], r) for r in roots))[1]` of _set_equivalent
@@ -700,3 +904,18 @@ Print Assumptions C06_classes_are_sccs_after_queries.
 Print Assumptions C06_complete_partial.
 Print Assumptions C06_complete_partial_edges_kept.
 Print Assumptions C06_heaviest_is_source.
+Print Assumptions C06_exec_total.
+Print Assumptions C06_exec_total_ex.
+Print Assumptions C06_step_total.
+Print Assumptions C06_find_total.
+Print Assumptions C06_find_fuel_sufficient.
+Print Assumptions C06_connect_cycles_total.
+Print Assumptions C06_connect_cycles_fuel_sufficient.
+Print Assumptions C06_find_path_total.
+Print Assumptions C06_find_path_fuel_sufficient.
+Print Assumptions C06_sound_total.
+Print Assumptions C06_classes_are_sccs_total.
+Print Assumptions C06_classes_are_sccs_after_queries_total.
+Print Assumptions C06_verified_total.
+Print Assumptions C06_path_total.
+Print Assumptions C06_total_needs_order_len.
